@@ -17,6 +17,8 @@ var (
 type GenOpts struct {
 	MaxOps  int
 	Timeout int64 // ns; 0 means "1 hour"
+	// Reentrant adds calls made from inside Stream callbacks to half of the histories (C01 only).
+	Reentrant bool
 }
 
 // Random builds one seeded history that ends with Close.
@@ -114,6 +116,19 @@ func Random(r *mon.Rand, o GenOpts) *History {
 		}
 	}
 	h.Ops = append(h.Ops, Op{Kind: OpClose})
+	if o.Reentrant && r.Chance(1, 2) {
+		// calls made from inside Stream callbacks: Maintain, or a push of a FRESH sequence number
+		// (never one that is in flight, so "still buffered" is unambiguous)
+		for i, n := 0, r.Range(1, 4); i < n; i++ {
+			ro := ReOp{At: r.Intn(2*len(h.Ops)/3 + 1)}
+			if r.Chance(1, 3) {
+				ro.Op = Op{Kind: OpMaintain}
+			} else {
+				ro.Op = Op{Kind: OpPushMsg, Seq: h.Base + 1000 + uint32(i), Type: mon.Pick(r, []uint16{1300, 1327, 1302, 1112})}
+			}
+			h.Reenter = append(h.Reenter, ro)
+		}
+	}
 	return h
 }
 
